@@ -224,6 +224,11 @@ def run(pid, tier, seed, rundir, model_run):
                     lost = [c for c in list(pre_a.values()) + list(pre_b.values()) if c in fin_a.values() and (c not in ra.values() or c not in rb.values())]
                     key = "recovery-loses-a-version" if lost else "recovery-differs-from-uninterrupted-run"
                     res["violations"].append((key, f"after crash + recovery the non-staging paths differ from the uninterrupted result at {diff[:4]}", rep))
+                else:
+                    _, _, _, rtrusted = observe_at(sb, wa, wb, whome)
+                    if rtrusted != fin_trusted:
+                        extra = sorted(set(rtrusted or {}) - set(fin_trusted or {}))
+                        res["violations"].append(("recovery-record-differs-from-uninterrupted-run", f"after crash + completed recovery the trees are the uninterrupted result's but the recorded common state is not (entries only in the recovered record: {extra[:3]}): a later run will decide against a record of paths that no longer exist", rep))
             count("kills", len(ks))
     with open(os.path.join(rundir, "ops.txt"), "w") as f:
         f.write("\n".join(ops) + ("\n" if ops else ""))
